@@ -103,6 +103,14 @@ Section SqlProofs.
   Lemma inv_reopen_cfg h igs igd : sql_inv h -> sql_inv (sql_reopen_cfg h igs igd).
   Proof. intros [Hs Hc]. split; cbn [sql_reopen_cfg q_rows q_cache]; [exact Hs|lia]. Qed.
 
+  Lemma inv_set_dups h yes : sql_inv h -> sql_inv (fst (sql_set_dups h yes)).
+  Proof.
+    intros [Hs Hc]. unfold sql_set_dups. destruct (Bool.eqb (q_igd h) yes); [split; assumption|].
+    destruct (yes && has_dup_rows (q_rows h))%bool; split; cbn [fst q_rows q_cache]; assumption.
+  Qed.
+  Lemma inv_set_space h yes : sql_inv h -> sql_inv (sql_set_space h yes).
+  Proof. intros [Hs Hc]. split; cbn [sql_set_space q_rows q_cache]; assumption. Qed.
+
   Theorem inv_run ops : forall h, sql_inv h -> sql_inv (fst (sql_run U h ops)).
   Proof.
     induction ops as [|o ops IH]; intros h Hi; cbn [sql_run]; [exact Hi|].
@@ -115,6 +123,9 @@ Section SqlProofs.
     - inversion E; subst. apply inv_set_max. exact Hi.
     - inversion E; subst. apply inv_reopen. exact Hi.
     - inversion E; subst. apply inv_reopen_cfg. exact Hi.
+    - destruct (sql_set_dups h yes) as [h' ok] eqn:Es. inversion E; subst.
+      pose proof (inv_set_dups h yes Hi) as H. rewrite Es in H. exact H.
+    - inversion E; subst. apply inv_set_space. exact Hi.
   Qed.
 
   Corollary reachable_sql_inv ops max igs igd : sql_inv (fst (sql_run U (sql_new max igs igd) ops)).
